@@ -11,7 +11,7 @@ ill-typed must raise or return something that passes the scan.
 import itertools
 
 from mc import ref, build
-from mc.core import Part, pmap, digest
+from mc.core import Part, pmap, digest, time_limit
 
 HORIZON = 24
 
@@ -118,7 +118,8 @@ def apply_op(d, op, cls):
         gen = d.normalize(left=op[1])
         return next(itertools.islice(gen, op[2], None))
     if name == "normal_form":
-        return d.normal_form(left=op[1])
+        with time_limit(10, "normal_form"):
+            return d.normal_form(left=op[1])
     if name == "foliate_step":
         return next(itertools.islice(d.foliate(), op[1], None))
     if name == "foliation":
@@ -165,7 +166,8 @@ def apply_op(d, op, cls):
     if name == "open_bubbles":
         return (d.bubble() @ d).bubble().open_bubbles()
     if name == "normal_form_normalizer":
-        return d.normal_form(normalizer=k.m.Diagram.normalize if cls == "monoidal" else None, left=op[1])
+        with time_limit(10, "normal_form"):
+            return d.normal_form(normalizer=k.m.Diagram.normalize if cls == "monoidal" else None, left=op[1])
     raise ValueError(op)
 
 
